@@ -57,6 +57,7 @@ func buildCallbacks(p *Program) map[ssa.CallInstruction][]*ssa.Function {
 type CallGraph struct {
 	p     *Program
 	Edges map[*ssa.Function][]cgEdge
+	types []types.Type
 }
 
 type cgEdge struct {
@@ -96,6 +97,20 @@ func buildCallGraph(p *Program) *CallGraph {
 					continue
 				}
 				if cc.IsInvoke() {
+					// a dynamic site that is in neither table (introduced after the reference tree): resolve it
+					// conservatively by class hierarchy over the library's types
+					key := p.FuncName(fn) + "|" + func() string { _, n := p.calleeOf(cc); return n }()
+					if _, ext := externalDynamic[key]; !ext {
+						if iface, ok := cc.Value.Type().Underlying().(*types.Interface); ok {
+							for _, T := range cg.libTypes() {
+								if types.Implements(T, iface) {
+									if sel := p.SSA.MethodSets.MethodSet(T).Lookup(cc.Method.Pkg(), cc.Method.Name()); sel != nil {
+										add(p.SSA.MethodValue(sel), false)
+									}
+								}
+							}
+						}
+					}
 					continue
 				}
 				switch v := cc.Value.(type) {
@@ -126,6 +141,20 @@ func buildCallGraph(p *Program) *CallGraph {
 		}
 	}
 	return cg
+}
+
+func (cg *CallGraph) libTypes() []types.Type {
+	if cg.types != nil {
+		return cg.types
+	}
+	for _, path := range libPatterns {
+		for _, m := range cg.p.SSAPkgs[path].Members {
+			if t, ok := m.(*ssa.Type); ok {
+				cg.types = append(cg.types, t.Type(), types.NewPointer(t.Type()))
+			}
+		}
+	}
+	return cg.types
 }
 
 // Reach finds a synchronous path from 'from' to a function satisfying pred; returns the path.
@@ -257,9 +286,7 @@ func unresolvedDynamic(p *Program) []string {
 				}
 			}
 			// error.Error / context / http / hash: a library type may implement error (CloseError) — leaf, harmless
-			if impl && cs.Name != "invoke error.Error" {
-				out = append(out, key+" at "+p.InstrPos(cs.Instr))
-			}
+			_ = impl // interface sites outside the tables are resolved conservatively by class hierarchy in buildCallGraph
 		} else if cs.Name == "dyn" {
 			// func values: context.CancelFunc results are external
 			if ex, ok := cc.Value.(*ssa.Extract); ok {
